@@ -145,6 +145,7 @@ class Engine:
         self.loop_bound = loop_bound
         self.typeids = {}
         self.budget_s = 1e9
+        self.cex_limit = 60
         self.slowlog = None
         self.presplit = True   # True: small-range vf_int inputs are case-split up front instead of staying symbolic
         from . import externs as ex
@@ -768,6 +769,8 @@ class Engine:
             if res.paths >= self.max_paths:
                 res.errors.append("path budget exhausted (%d)" % self.max_paths)
                 break
+            if len(res.cex) >= self.cex_limit:
+                raise Budget("%d candidate counterexamples collected; exploration stopped to replay them" % len(res.cex))
             self.cur = st
             try:
                 forks = self.run_path(st)
